@@ -16,7 +16,7 @@ func init() {
 	register(&Property{
 		ID:        "C44",
 		Patterns:  []string{"./sql/variables"},
-		Technique: "constant-table extraction from the system-variable registry literals (go/types + go/constant): key/name/type-name agreement, default folded against the type constructor's domain, ValueFunction result kind",
+		Technique: "constant-table extraction from the system-variable registry literals (go/types + go/constant): key/name/type-name agreement, default folded against the type constructor's domain, ValueFunction result kind; key-normalisation discipline of the folded-name variable maps: reaching-definition analysis of every map key over go/ssa (phis, helper parameters through all static call sites, closures)",
 		Explanation: "The system-variable registry is the pair of map literals systemVars / mariadbSystemVars (sql/variables). Lookups fold the requested name to lower case and index the " +
 			"maps by key, while values are stored under GetName(); every type is built by a types.NewSystem*Type(name, domain...) constructor whose Convert validates SET values and renders " +
 			"SELECT @@var. Decided for every entry: (N1) map key == Name, the key is lower-case and is not declared in both maps (otherwise the variable is unreachable or its value slot is missing); " +
@@ -24,11 +24,17 @@ func init() {
 			"(T1) the constructor's domain is well formed (lower<=upper, enum/set members non-empty and distinct after case folding); " +
 			"(D1) the declared Default lies in the domain its own type accepts (numeric default within the bounds, or -1 where allowed; bool default 0/1; enum default a member; set default made of members; " +
 			"string default a string), so SELECT @@var on a fresh server and SET @@var = DEFAULT produce a value of the variable's type; " +
-			"(D2) a ValueFunction returns a Go value of the kind its declared type accepts (integer for int/uint types, 0/1-typed for bool types, string for string/enum/set types).",
-		NotCovered: "SET validation of arbitrary run-time values (the Convert functions themselves), session/global visibility, scope semantics (MysqlSystemVariable.SetValue only " +
+			"(D2) a ValueFunction returns a Go value of the kind its declared type accepts (integer for int/uint types, 0/1-typed for bool types, string for string/enum/set types). " +
+			"(K1) key-normalisation discipline: a map that holds variable definitions or values (elements SystemVariable, SystemVarValue, TypedValue, StatusVarValue, StoredProcParam) and that is accessed somewhere with a " +
+			"strings.ToLower result as key is a folded-name map (today: globalSystemVariables.sysVarVals, the registries systemVars/mariadbSystemVars, BaseSession.systemVars and storedProcParams, UserVars.userVars); every read, comma-ok read, " +
+			"store and delete of such a map in the loaded packages uses a key that is, on all reaching definitions, a strings.ToLower result, a lower-case constant, a key ranged out of a folded-name map, a parameter of an unexported " +
+			"function all of whose static call sites pass such a key, or GetName() of an entry ranged out of a registry literal that N1 proved folded and that is never stored into at run time; otherwise the value is stored or looked up " +
+			"under a spelling no other access uses (SET GLOBAL Max_Connections lost, SELECT @@Autocommit unknown).",
+		NotCovered: "SET validation of arbitrary run-time values (the Convert functions themselves), session/global visibility beyond the key discipline, folded-name maps that do not hold variables (listed in a note: collations, character sets, " +
+			"external procedures, index-builder ranges, database provider), maps reached other than by loading a field or package variable, status variables (never folded: MySQL status names are used verbatim), scope semantics (MysqlSystemVariable.SetValue only " +
 			"distinguishes global-only and session-only, every other scope constant behaves like BOTH), user variables, status variables (their Default/Type pairs are counters by convention), " +
 			"entries whose Type is a general SQL type (listed as info)",
-		Run: func(c *Ctx) { runC44(c, "sql/variables", "sql", "sql/types", "MysqlSystemVariable", 349, 1) },
+		Run: func(c *Ctx) { runC44(c, "sql/variables", "sql", "sql/types", "MysqlSystemVariable", 349, 1, 20) },
 		Fixture: func(c *Ctx, fx *Prog) {
 			expectFixture(c, fx, "c44: wrong key, wrong type name, default out of bounds, non-member enum default, bad bounds, value function kind must be reported",
 				[]string{
@@ -40,12 +46,35 @@ func init() {
 					"C44-D2:vars/clock", "C44-N2:vars/clock",
 				},
 				func(fc *Ctx) {
-					runC44(fc, "testdata/c44/variables", "testdata/c44/sql", "testdata/c44/types", "MysqlSystemVariable", 0, 0)
+					runC44(fc, "testdata/c44/variables", "testdata/c44/sql", "testdata/c44/types", "MysqlSystemVariable", 0, 0, -1)
+				})
+			expectFixture(c, fx, "c44 K1: store/delete/read under the caller's spelling, mixed-case constant, helper with one unfolded caller, one unfolded reaching definition, Name() of a registry that is extended at run time must be reported",
+				[]string{
+					"C44-K1:Session.Set/Session.vars[store]",
+					"C44-K1:Session.init/Session.vars[store]",
+					"C44-K1:Session.Unset/Session.vars[delete]",
+					"C44-K1:Session.ResetSQLMode/Session.vars[store]",
+					"C44-K1:Session.Has/Session.vars[read,ok]",
+					"C44-K1:Globals.InitOpen/Globals.vals[store]",
+				},
+				func(fc *Ctx) {
+					regs := map[types.Object]bool{}
+					if vp := fc.P.Pkg("testdata/c44k/variables"); vp != nil {
+						for _, n := range []string{"fixed", "open"} {
+							if o := vp.Types.Scope().Lookup(n); o != nil {
+								regs[o] = true
+							}
+						}
+					}
+					runC44Keys(fc, c44kCfg{registries: regs, nameMethod: "GetName", sqlRel: "testdata/c44k/sql", valueTypes: c44VariableTypes})
 				})
 		},
-		FixturePkgs: []string{"./testdata/c44/variables"},
+		FixturePkgs: []string{"./testdata/c44/variables", "./testdata/c44k/variables"},
 	})
 }
+
+// c44VariableTypes: the element types (package sql) of the maps that hold variable definitions and values.
+var c44VariableTypes = []string{"SystemVariable", "SystemVarValue", "TypedValue", "StatusVarValue", "StoredProcParam"}
 
 type c44Kind int
 
@@ -84,7 +113,7 @@ type c44Entry struct {
 	fields       map[string]ast.Expr
 }
 
-func runC44(c *Ctx, varsRel, sqlRel, typesRel, structName string, floorEntries, floorVF int) {
+func runC44(c *Ctx, varsRel, sqlRel, typesRel, structName string, floorEntries, floorVF, floorKeys int) {
 	fl := func(n int) int {
 		if c.fixtureMode {
 			return 0
@@ -127,6 +156,7 @@ func runC44(c *Ctx, varsRel, sqlRel, typesRel, structName string, floorEntries, 
 	info := vp.TypesInfo
 	var entries []*c44Entry
 	perMap := map[string]int{}
+	regObjs := map[types.Object]bool{}
 	for _, file := range vp.Syntax {
 		for _, d := range file.Decls {
 			gd, ok := d.(*ast.GenDecl)
@@ -157,6 +187,9 @@ func runC44(c *Ctx, varsRel, sqlRel, typesRel, structName string, floorEntries, 
 					}
 					_ = mt
 					mname := vs.Names[i].Name
+					if o := info.Defs[vs.Names[i]]; o != nil {
+						regObjs[o] = true
+					}
 					for _, el := range lit.Elts {
 						kv := el.(*ast.KeyValueExpr)
 						key := "?"
@@ -297,6 +330,15 @@ func runC44(c *Ctx, varsRel, sqlRel, typesRel, structName string, floorEntries, 
 	}
 	sort.Strings(ks)
 	c.Notef("entries by type kind: %v", ks)
+	// ---- K1: key normalisation of the folded-name maps. Name() of a registry entry counts as folded only if N1 holds for every entry.
+	for _, o := range c.Obs {
+		if o.Rule == "C44-N1" && o.Status == Violation {
+			regObjs = map[types.Object]bool{}
+		}
+	}
+	if floorKeys >= 0 {
+		runC44Keys(c, c44kCfg{registries: regObjs, nameMethod: "GetName", sqlRel: sqlRel, valueTypes: c44VariableTypes, floor: fl(floorKeys)})
+	}
 }
 
 func c44StructLit(info *types.Info, v ast.Expr, stn *types.TypeName) *ast.CompositeLit {
